@@ -327,7 +327,7 @@ def round3_rules(res, fx):
                           'from 0 while i < count', floor=3)
     n = 0
     for g in sorted((g for g in fx.funcs.values() if g.full and g.file.endswith('reflector/DataNode.cpp')), key=lambda g: g.line):
-        for lp in (x for x in g.walk() if x['k'] == 'ForStmt'):
+        for lp in (x for x in g.walk() if x['k'] in ('ForStmt', 'WhileStmt')):
             cl = A.counting_loop(lp)
             if not cl:
                 continue
@@ -336,7 +336,7 @@ def round3_rules(res, fx):
                 continue
             # the body compares the name of the index entry at the loop variable
             subs = [x for x in body.walk() if x['k'] == 'CXXOperatorCallExpr' and (x.get('q') or '').endswith('Queue::operator[]') and len(x['ch']) > 2 and A.strip_casts(x['ch'][2]).get('d') == cl['var']
-                    and any(y.get('n') == '_orderedIndex' for y in x['ch'][1].walk())]
+                    and (any(y.get('n') == '_orderedIndex' for y in x['ch'][1].walk()) or _is_node_queue(x['ch'][1]))]
             if not subs or not any(x.is_call() and (x.get('q') or '').endswith('::GetNodeName') for x in body.walk()):
                 continue
             if not any(x['k'] in ('CXXOperatorCallExpr', 'BinaryOperator') and ((x.get('q') or '').endswith('operator==') or x.get('op') == '==') and any(y in subs for y in x.walk()) for x in body.walk()):
@@ -358,6 +358,12 @@ def round3_rules(res, fx):
                            'entry is not removed from the index (the index names a node that no longer exists) or is listed twice after a move' % (g.q, st.text(30) if st is not None else '?', cl['op'], bd.text(20)))
     if n < 3:
         raise AnalysisBroken('FULL-SCAN: only %d name searches over the ordered index found in DataNode.cpp' % n)
+
+
+def _is_node_queue(e):
+    """the subscripted object is a Queue of DataNodeRef (the ordered index handed to a helper by reference)"""
+    t = (A.strip_casts(e).type() or '')
+    return 'Queue<' in t and 'DataNode' in t
 
 
 def snapshot_rule(res, f, ops):
